@@ -263,13 +263,22 @@ def replay(rec):
             b = [Fraction(0)] * p
         icpt = mu[y] - sum(b[k] * mu[k] for k in range(p))
         mse = S[y][y] - 2 * sum(b[k] * S[k][y] for k in range(p)) + sum(b[k] * b[l] * S[k][l] for k in range(p) for l in range(p))
-        bad = any(not C05._close(r[1][k], b[k], 1e-6) for k in range(p)) or not C05._close(r[2], icpt, 1e-6) or not C05._close(r[3], mse, 1e-6)
+        # the mse is compared on ITS OWN scale (a conditional variance of 4e-9 reported as 0 is wrong), exact zeros up to
+        # rounding noise relative to the entries of Sigma
+        scale = max([abs(float(v)) for row in S for v in row] + [1e-300])
+
+        def close_mse(got, want):
+            got, want = float(got), float(want)
+            if want == 0:
+                return abs(got) <= 1e-9 * scale
+            return abs(got - want) <= 1e-6 * max(abs(got), abs(want))
+        bad = any(not C05._close(r[1][k], b[k], 1e-6) for k in range(p)) or not C05._close(r[2], icpt, 1e-6) or not close_mse(r[3], mse)
         if not bad:
             # order invariance / mean independence on the real code
             import numpy
             d = C05._np_dist(inp)
             for perm in itertools.permutations(Xs):
-                if not C05._close(d.mse(y, list(perm)), mse, 1e-6):
+                if not close_mse(d.mse(y, list(perm)), mse):
                     bad = True
                 c2, i2 = d.regress(y, list(perm))
                 if any(not C05._close(c2[k], b[k], 1e-6) for k in range(p)) or not C05._close(i2, icpt, 1e-6):
@@ -296,7 +305,8 @@ def replay(rec):
             pa = [i for i in range(p) if Wp[i][j] != 0]
             c, i0 = dist.regress(j, pa)
             m = dist.mse(j, pa)
-            if any(not C05._close(c[i], Wp[i][j], 1e-6) for i in range(p)) or not C05._close(i0, mu_[j], 1e-6) or not C05._close(m, D_[j], 1e-6):
+            okm = (abs(m) <= 1e-9 * max(1e-300, float(abs(variances).max()))) if D_[j] == 0 else (abs(m - D_[j]) <= 1e-6 * max(abs(m), abs(D_[j])))
+            if any(not C05._close(c[i], Wp[i][j], 1e-6) for i in range(p)) or not C05._close(i0, mu_[j], 1e-6) or not okm:
                 bad.append('X%d: coefs %s intercept %s mse %s, expected %s, %s, %s' % (j, c.tolist(), i0, m, [Wp[i][j] for i in range(p)], mu_[j], D_[j]))
         return (len(bad) > 0, '; '.join(bad[:3]) or 'LGANM link satisfied')
     return (False, 'unknown call')
